@@ -277,6 +277,32 @@ func checkC06(w *Worker) {
 				ds = append(ds, d.Date)
 			}
 		}
+		if len(ds) > 16 {
+			// a long log: bounds at its ends, around the powers of two, and every date that is out of order or repeated
+			keep := map[int]bool{0: true}
+			n := len(ds) - 1
+			for _, i := range []int{1, 2, 3, 32, 33, 64, 65, 128, 129, 256, 257, n / 2, n - 1, n} {
+				if i >= 1 && i <= n {
+					keep[i] = true
+				}
+			}
+			count := map[string]int{}
+			for _, d := range sc.Log {
+				count[d.Date]++
+			}
+			for i := 1; i <= n; i++ {
+				if count[ds[i]] > 1 || (i > 1 && ds[i] < ds[i-1]) {
+					keep[i] = true
+				}
+			}
+			var sub []string
+			for i := range ds {
+				if keep[i] {
+					sub = append(sub, ds[i])
+				}
+			}
+			ds = sub
+		}
 		b := ds[x.Choose(len(ds), "input:begin")]
 		e := ds[x.Choose(len(ds), "input:end")]
 		if b == "" && e == "" {
